@@ -49,6 +49,63 @@ def is_known(known, prop, viol):
     return None
 
 
+def run_jobs(cids, tier, seed, prop, trials):
+    from pyvc.contract import REGISTRY
+
+    jobs = []
+    for cid in cids:
+        n = len(REGISTRY[cid].instances(tier))
+        for i in range(n):
+            jobs.append((cid, i, tier, seed, prop, trials))
+    workers = min(int(os.environ.get("PYVC_JOBS", "16")), max(1, len(jobs)))
+    ctx = mp.get_context("fork")
+    with ctx.Pool(workers, maxtasksperchild=8) as pool:
+        return jobs, pool.map(_worker, jobs, chunksize=1)
+
+
+def sub_main(prop, tier, seed, cids):
+    """child process of a hash-seed re-run: prints the raw results as JSON"""
+    import contracts  # noqa: F401
+
+    _, results = run_jobs(cids, tier, seed, prop, 0)
+    for r in results:
+        r.pop("covered", None)
+    sys.stdout.write("\nPYVC-SUB-RESULTS " + json.dumps(results, default=str) + "\n")
+    return 0
+
+
+def hash_seed_reruns(prop, tier, seed, spec):
+    """re-prove the listed contracts in fresh processes with other PYTHONHASHSEED values (C09: set
+    iteration orders must not matter); obligation ids get a suffix naming the hash seed"""
+    import subprocess
+
+    hs = spec.get("hash_seeds")
+    if not hs:
+        return []
+    out = []
+    seeds = hs.get("seeds_thorough", hs["seeds"]) if tier == "thorough" else hs["seeds"]
+    procs = []
+    for s_ in seeds:
+        env = dict(os.environ, PYTHONHASHSEED=str(s_), PYVC_JOBS=str(max(2, 16 // len(seeds))))
+        procs.append((s_, subprocess.Popen([sys.executable, "-m", "pyvc.cli", "_sub", prop, "--tier", tier, "--only", ",".join(hs["contracts"])], cwd=ROOT, env=env, stdout=subprocess.PIPE, stderr=subprocess.DEVNULL, text=True)))
+    for s_, p_ in procs:
+        txt, _ = p_.communicate()
+        line = [ln for ln in txt.splitlines() if ln.startswith("PYVC-SUB-RESULTS ")]
+        if not line:
+            out.append({"cid": "hash-seed-rerun", "target": "hash-seed-rerun", "instance": f"PYTHONHASHSEED={s_}", "obligations": [], "trusted": [], "undecided": [], "violations": [], "checker_errors": [{"where": f"PYTHONHASHSEED={s_}", "trace": "sub-process produced no results"}], "solver_s": 0.0, "scope": "?"})
+            continue
+        for r in json.loads(line[0][len("PYVC-SUB-RESULTS "):]):
+            tag = f"@PYTHONHASHSEED={s_}"
+            for o in r["obligations"]:
+                o["id"] += tag
+            for v in r["violations"]:
+                v["obligation"] += tag
+            for u in r["undecided"]:
+                u["obligation"] += tag
+            out.append(r)
+    return out
+
+
 def check_property(prop, tier, seed):
     import contracts  # noqa: F401
     from props import PROPS
@@ -61,16 +118,9 @@ def check_property(prop, tier, seed):
     if missing:
         print(f"CHECKER-ERROR: contracts not registered: {missing}")
         return EXIT_ERROR
-    jobs = []
     trials = spec.get("native_trials", 8) if tier == "thorough" else spec.get("native_trials_quick", 0)
-    for cid in cids:
-        n = len(REGISTRY[cid].instances(tier))
-        for i in range(n):
-            jobs.append((cid, i, tier, seed, prop, trials))
-    workers = min(int(os.environ.get("PYVC_JOBS", "16")), max(1, len(jobs)))
-    ctx = mp.get_context("fork")
-    with ctx.Pool(workers, maxtasksperchild=8) as pool:
-        results = pool.map(_worker, jobs, chunksize=1)
+    jobs, results = run_jobs(cids, tier, seed, prop, trials)
+    results = results + hash_seed_reruns(prop, tier, seed, spec)
 
     known = load_known()
     obligations = discharged = 0
@@ -190,12 +240,15 @@ def main(argv=None):
     ap.add_argument("what")
     ap.add_argument("path", nargs="?")
     ap.add_argument("--tier", default=os.environ.get("VERIF_TIER", "quick"))
+    ap.add_argument("--only", default="")
     args = ap.parse_args(argv)
     seed = int(os.environ.get("VERIF_SEED", "0") or 0)
     if args.what == "replay":
         from pyvc.run import replay
 
         return replay(args.path)
+    if args.what == "_sub":
+        return sub_main(args.path, args.tier if args.tier in ("quick", "thorough") else "quick", seed, [c for c in args.only.split(",") if c])
     if args.what == "list":
         import contracts  # noqa: F401
         from props import PROPS
